@@ -15,7 +15,9 @@ HARNESS = ['root_intrinsics.go', 'root_element.go']
 def run(tier, seed, ck=None):
     own = ck is None
     ck = ck or Check('C05', tier, seed, level='proof')
-    runs = ck.absorb(core.symx(HARNESS, [{'id': 'eq%d' % a, 'harness': 'vh_el_equal', 'args': [a], 'summaries': FIELD_SUMM} for a in (0, 1)]))
+    runs = ck.absorb(core.symx(HARNESS, [{'id': 'eq%d' % a, 'harness': 'vh_el_equal', 'args': [a], 'summaries': FIELD_SUMM} for a in (0, 1)] +
+                               [{'id': 'id%d' % k, 'harness': 'vh_el_identity', 'args': [k], 'summaries': FIELD_SUMM} for k in range(4)]))
+    idruns, runs = runs[2:], runs[:2]
     ck.extra.setdefault('_runs', []).extend(runs)
     ck.trusted += ['go/ssa + symx translation', 'SMT solvers', 'contracts of field.Element.Multiply/Equals/IsZero (C12)',
                   'projective equality: for valid representations (Z != 0 on the curve, or (0:Y:0) with Y != 0) two triples denote the same point iff X1Z2 = X2Z1 and Y1Z2 = Y2Z1 '
@@ -50,8 +52,21 @@ def run(tier, seed, ck=None):
         ck.prove(tag + '.reach1', 'Equal can be 1', pre + '\n(assert (= n%d (_ bv1 64)))' % o['eq']['n'], expect='sat', timeout=30)
         if al == 0:
             ck.prove(tag + '.reach0', 'Equal can be 0', pre + '\n(assert (= n%d (_ bv0 64)))' % o['eq']['n'], expect='sat', timeout=30)
+    # every producer of the identity leaves exactly (0 : 1 : 0), whatever the receiver held before: the only representation
+    # family for which the cross-multiplication test is an equivalence needs Y != 0 when Z = 0
+    for k, r in enumerate(idruns):
+        nm = ['Identity()', 'Decode(00)', 'Multiply(nil)', 'NewElement()'][k]
+        rets = [p_ for p_ in r.paths if p_['end'] == 'return']
+        ck.ground('C05.identity%d.shape' % k, '%s returns on every path' % nm, len(rets) >= 1 and len(rets) == len(r.paths))
+        for p_ in rets:
+            low = PolyLower(r)
+            X, Y, Z = coords(low, p_['obs'], 'E')
+            low.emit(p_['pc'])
+            ck.prove_batch(low.all() + '\n' + '\n'.join('(assert n%d)' % c_ for c_ in p_['pc']),
+                           [('C05.identity%d.path%d' % (k, p_['id']), '%s sets the receiver to (0 : 1 : 0) regardless of its previous coordinates' % nm,
+                             '(assert (not (and (= %s 0) (= %s 1) (= %s 0))))' % (X, Y, Z))], timeout=30)
     if any(not o['ok'] for o in ck.obls) and not ck.violations:
-        path = ck.save_replay({'property': 'C05', 'cases': [{'kind': 'el-battery', 'op': 'equal', 'n': ck.seed}]})
+        path = ck.save_replay({'property': 'C05', 'cases': [{'kind': 'identity-producers'}, {'kind': 'el-battery', 'op': 'equal', 'n': ck.seed}]})
         ok, out = core.go_test(path)
         if not ok and 'MISMATCH' in out:
             ck.violation('equal', 'Equal/IsIdentity wrong on curve points: %s' % [l.strip() for l in out.splitlines() if 'MISMATCH' in l][:1], path)
